@@ -15,7 +15,7 @@ except SystemExit:
     print(patch,'NOCOMPILE'); shutil.rmtree(d,ignore_errors=True); sys.exit(0)
 shutil.rmtree(d, ignore_errors=True)
 F=FA.Facts(fdir, info)
-ids=sys.argv[2:] or ['C%02d'%i for i in range(1,21) if i not in (14,17)]
+ids=sys.argv[2:] or sorted(f[:-3].upper() for f in os.listdir(os.path.join(os.path.dirname(os.path.dirname(os.path.abspath(__file__))),'rules')) if f.startswith('c') and f.endswith('.py'))
 out=[]
 for pid in ids:
     mod=importlib.import_module('rules.'+pid.lower())
